@@ -249,19 +249,32 @@ def _unlimit_stack():
             pass
 
 
-def k1_run(subcmd, seed, total, shards, scratch, extra_args=(), timeout=3000, corpus=()):
+def k1_run(subcmd, seed, total, shards, scratch, extra_args=(), timeout=3000, corpus=(), regen=None):
     """Run the harness subcommand in `shards` processes, then the driver on each shard's cases.
-    Returns dict with per-case comparison results."""
+    Returns dict with per-case comparison results.
+    regen = {"seed": shard seed, "count": n, "only": case number}: regenerate and run exactly that case of that
+    shard (every case has its own PRNG stream derived from the shard seed and its number)."""
     per = max(1, total // shards)
     cmds = []
     dirs = []
+    shard_seeds = []
+    if regen:
+        shards = 1
     for s in range(shards):
         d = os.path.join(scratch, f"{subcmd}-s{s}")
         dirs.append(d)
-        argv = [HARNESS, subcmd, str((seed * 1000003 + s) & 0xFFFFFFFFFFFF), str(per), d] + list(extra_args)
+        sseed = int(regen["seed"]) if regen else (seed * 1000003 + s) & 0xFFFFFFFFFFFF
+        n = int(regen["count"]) if regen else per
+        shard_seeds.append((sseed, n))
+        argv = [HARNESS, subcmd, str(sseed), str(n), d] + list(extra_args)
         if s == 0:
             argv += list(corpus)
-        cmds.append((argv, os.path.join(scratch, f"{subcmd}-s{s}.hlog"), None))
+        cmds.append((argv, os.path.join(scratch, f"{subcmd}-s{s}.hlog"), {"VERIF_ONLY": str(int(regen["only"]))} if regen else None))
+
+    def regen_of(si, case_no):
+        if case_no is None or case_no < 0:
+            return None
+        return {"subcmd": subcmd, "seed": shard_seeds[si][0], "count": shard_seeds[si][1], "only": case_no, "extra_args": list(extra_args)}
     t0 = time.time()
     rcs = run_parallel(cmds, timeout)
     t_impl = time.time() - t0
@@ -273,9 +286,12 @@ def k1_run(subcmd, seed, total, shards, scratch, extra_args=(), timeout=3000, co
         hp = os.path.join(dirs[i], "hang.txt")
         if os.path.exists(hp):
             # the per-case watchdog of the harness: the implementation did not finish this case
-            limit, _, line = open(hp).read().partition("\n")
+            parts = open(hp).read().split("\n")
+            limit, line = parts[0], (parts[1] if len(parts) > 1 else "")
+            cno = int(parts[2]) if len(parts) > 2 and parts[2].strip().isdigit() else None
             res["oracle_failures"].append({"shard": i, "index": -1, "case": line.strip(), "impl": "",
-                                           "oracle": f"FAIL hang the implementation did not finish this case within {limit.strip()} s"})
+                                           "oracle": f"FAIL hang the implementation did not finish this case within {limit.strip()} s",
+                                           "regen": regen_of(i, cno)})
             hung.add(i)
             continue
         errtxt = ""
@@ -305,17 +321,24 @@ def k1_run(subcmd, seed, total, shards, scratch, extra_args=(), timeout=3000, co
         op = os.path.join(d, "oracle.txt")
         if os.path.exists(op):
             oracle = open(op).read().splitlines()
+        # number of the loop iteration that produced each case line (absent for corpus cases: 18446744073709551615)
+        cnos = []
+        ip = os.path.join(d, "index.txt")
+        if os.path.exists(ip):
+            cnos = [int(x) if x.strip().isdigit() and int(x) < (1 << 63) else None for x in open(ip).read().splitlines()]
+        cno = lambda ci: cnos[ci] if ci < len(cnos) else None
         res["cases"] += len(cases)
         for ci in range(len(cases)):
             im = impl[ci] if ci < len(impl) else "<missing>"
             mo = model[ci] if ci < len(model) else "<missing>"
             if im != mo:
                 res["mismatches"].append({"shard": si, "index": ci, "case": cases[ci], "impl": im, "model": mo,
-                                          "oracle": oracle[ci] if ci < len(oracle) else "?"})
+                                          "oracle": oracle[ci] if ci < len(oracle) else "?", "regen": regen_of(si, cno(ci))})
         for ci, o in enumerate(oracle):
             if not o.startswith("ok"):
                 res["oracle_failures"].append({"shard": si, "index": ci, "case": cases[ci] if ci < len(cases) else "",
-                                               "impl": impl[ci] if ci < len(impl) else "", "oracle": o})
+                                               "impl": impl[ci] if ci < len(impl) else "", "oracle": o,
+                                               "regen": regen_of(si, cno(ci))})
         sp = os.path.join(d, "stats.json")
         if os.path.exists(sp):
             try:
